@@ -10,7 +10,9 @@ Case format
   src_init : [[int, ...], ...]             one row per source object S0, S1, ...
   targets  : [{"params": [pdecl, ...], "ctor": [[pidx, rhs], ...]}, ...]   target t has its own class T<t>
      pdecl : {"kind": "int"|"pair", "lo": int|None, "hi": int|None, "default": val,
-              "constant": b, "readonly": b, "allow_refs": b, "nested_refs": b}
+              "constant": b, "readonly": b, "allow_refs": b, "nested_refs": b, "per_instance": b (default true;
+              harness only: with per_instance=False the instance has no Parameter copy of its own, `t.param.p` is the
+              class Parameter — values, links and watchers are per instance all the same, so the model is unchanged)}
   ops      : [op, ...]                     each run under try/except
      {"op":"set","t":t,"p":p,"rhs":rhs}          t.p = rhs                (instance route)
      {"op":"setCls","t":t,"p":p,"rhs":rhs}       T<t>.p = rhs             (class route)
@@ -136,7 +138,7 @@ class Runner:
             ns, names = {}, []
             for i, pd in enumerate(td['params']):
                 kw = dict(bounds=(pd['lo'], pd['hi']), constant=pd['constant'], readonly=pd['readonly'],
-                          allow_refs=pd['allow_refs'], nested_refs=pd['nested_refs'])
+                          allow_refs=pd['allow_refs'], nested_refs=pd['nested_refs'], per_instance=pd.get('per_instance', True))
                 if pd['kind'] == 'int':
                     ns[f'p{i}'] = param.Integer(default=pd['default'], **kw)
                 else:
@@ -317,6 +319,8 @@ class Runner:
                 err = 'noctx'
             except NotImplementedError:
                 err = 'unsupported'
+            except Exception as e:          # nothing else may escape an assignment: reported, judged by the oracle
+                err = 'other:' + type(e).__name__
             st = self.state()
             st['err'] = err
             st['log'] = [list(x) for x in self.log]
@@ -408,11 +412,17 @@ def run_impl(case):
 
 # --------------------------------------------------------------------------- generation
 
-def P(kind='int', lo=None, hi=None, default=None, constant=False, readonly=False, allow_refs=True, nested_refs=False):
+def P(kind='int', lo=None, hi=None, default=None, constant=False, readonly=False, allow_refs=True, nested_refs=False,
+      per_instance=True):
     if default is None:
         default = 0 if kind == 'int' else [0, 0]
     return {'kind': kind, 'lo': lo, 'hi': hi, 'default': default, 'constant': constant, 'readonly': readonly,
-            'allow_refs': allow_refs, 'nested_refs': nested_refs}
+            'allow_refs': allow_refs, 'nested_refs': nested_refs, 'per_instance': per_instance}
+
+
+def shared_params(pds, which=None):
+    """the same declarations with per_instance=False on the given (default: all) parameters"""
+    return [dict(pd, per_instance=False) if (which is None or i in which) else dict(pd) for i, pd in enumerate(pds)]
 
 
 def lit(n):
@@ -657,6 +667,8 @@ def rand_targets(rng, nsrc, nsp, src, ntargets=None):
     for _ in range(ntargets or rng.choice([1, 1, 2])):
         if rng.random() < 0.6:
             pds = [dict(p) for p in STD]
+            if rng.random() < 0.3:
+                pds = shared_params(pds, rng.sample(range(len(pds)), rng.randint(1, len(pds))))
         else:
             pds = []
             for _ in range(rng.randint(2, 5)):
@@ -665,6 +677,7 @@ def rand_targets(rng, nsrc, nsp, src, ntargets=None):
                 pds.append(P(kind, 0 if bounded else None, 10 if bounded else None,
                              constant=rng.random() < 0.15, readonly=rng.random() < 0.08,
                              allow_refs=rng.random() < 0.9, nested_refs=(kind == 'pair' and rng.random() < 0.8) or rng.random() < 0.1,
+                             per_instance=rng.random() < 0.8,
                              default=None if kind == 'pair' else rng.randint(0, 3)))
         ctor = []
         for p, pd in enumerate(pds):
@@ -712,11 +725,16 @@ def _strip_own(o):
 def compare(impl, model):
     from .run import first_diff
     a = {k: v for k, v in impl.items() if k != 'twin'}
-    return first_diff(_strip_own(a), _strip_own(model))
+    return first_diff(a, model)
 
 
 def tags(case, impl):
     t = [f'targets={len(case["targets"])}', f'len={min(len(case["ops"]), 12)}', 'subclass' if case.get('sub') else 'direct-class']
+    shared = {(ti, pi) for ti, td in enumerate(case['targets']) for pi, pd in enumerate(td['params']) if not pd.get('per_instance', True)}
+    for ti, td in enumerate(case['targets']):
+        for p, rhs in td['ctor']:
+            if (ti, p) in shared and not rhs_is_lit(rhs):
+                t.append('shared:ctor-link')
     for td in case['targets']:
         for p, rhs in td['ctor']:
             t.append('ctor:' + rhs_kind(rhs))
@@ -729,10 +747,14 @@ def tags(case, impl):
                 t.append(f'late:{rhs_kind(op["rhs"])}:{e}')
             else:
                 t.append(f'{op["op"]}:{e}')
+            if op['op'] == 'set' and (op['t'], op['p']) in shared:
+                t.append(f'shared:set:{"plain" if rhs_is_lit(op["rhs"]) else "ref"}:{e}')
             if op['op'] in ('update', 'ctxEnter'):
                 t.append(f'{op["op"]}:form:{op.get("form", "pos")}')
                 if op.get('ev'):
                     t.append(f'{op["op"]}:ev:{op["ev"]}:{e}')
+                if any((op['t'], k) in shared for k, _ in op['kvs']):
+                    t.append(f'shared:{op["op"]}:{e}')
             if op['op'] == 'srcSet' and e != 'ok':
                 t.append('srcSet:rejected-sync')
     elif isinstance(impl, dict) and impl.get('ctor_err'):
